@@ -334,6 +334,19 @@ func (t *Task) runWithLocking() {
 		}
 	}
 
+	// Count the task as running work of its module before it is started, so
+	// that a module stop that begins now waits for it. If the stop has begun
+	// already, the task is not started anymore.
+	atomic.AddInt32(t.module.taskCnt, 1)
+	if t.module.IsStopping() {
+		atomic.AddInt32(t.module.taskCnt, -1)
+		t.module.checkIfStopComplete()
+		t.lock.Lock()
+		t.executing = false
+		t.lock.Unlock()
+		return
+	}
+
 	// add to queue workgroup
 	queueWg.Add(1)
 
@@ -349,9 +362,7 @@ func (t *Task) runWithLocking() {
 }
 
 func (t *Task) executeWithLocking() {
-	// start for module
-	// hint: only queueWg global var is important for scheduling, others can be set here
-	atomic.AddInt32(t.module.taskCnt, 1)
+	// The task was counted as running work of its module by runWithLocking.
 
 	defer func() {
 		// recover from panic
